@@ -5,6 +5,8 @@ other and may only read what is already driven (or registers / inputs), so the
 block graph is acyclic by construction.  Every combinational block assigns all
 of its targets on every path (default assignment first).
 """
+import itertools
+
 from .spec import field_layout, tbits, walk_exprs, width
 
 WIDTHS = [1, 1, 2, 3, 4, 4, 5, 7, 8, 8, 12, 16, 16, 31, 32, 32, 33, 64]
@@ -17,25 +19,25 @@ DEFAULT_PROFILE = dict(
   p_connect=0.3, p_lambda=0.12, max_block_targets=3,
   expr_depth=3, p_if=0.4, p_for=0.25, p_tmp=0.2, p_free=0.15,
   p_big_width=0.04, p_reset_in_ff=0.5, translatable=False,
-  p_var_index=0.2, min_blocks=0, p_read_own=0.05, yosys=False,
+  p_var_index=0.2, min_blocks=0, p_read_own=0.05, yosys=False, p_sub2d=0.0,
 )
 
 
 def profile(name):
   p = dict(DEFAULT_PROFILE)
   if name == "acyclic":
-    pass
+    p.update(p_sub2d=0.1)
   elif name == "ff_heavy":
     p.update(p_reg=0.75, n_wire=(2, 7), p_connect=0.25)
   elif name == "big":
     p.update(n_wire=(10, 18), n_out=(2, 4), n_in=(2, 5), p_connect=0.1, p_lambda=0.05,
              max_block_targets=1, p_if=0.9, p_split=0.5, n_child_classes=(0, 1))
   elif name == "shapes":
-    p.update(p_split=0.8, p_struct=0.6, n_structs=(1, 2), p_connect=0.4, n_wire=(3, 7))
+    p.update(p_split=0.8, p_struct=0.6, n_structs=(1, 2), p_connect=0.4, n_wire=(3, 7), p_sub2d=0.1)
   elif name == "translatable":
-    p.update(translatable=True, p_big_width=0.0)
+    p.update(translatable=True, p_big_width=0.0, p_sub2d=0.2)
   elif name == "translatable_yosys":
-    p.update(translatable=True, p_big_width=0.0, yosys=True)
+    p.update(translatable=True, p_big_width=0.0, yosys=True, p_sub2d=0.2)
   else:
     raise ValueError(name)
   p["name"] = name
@@ -138,6 +140,8 @@ class CompGen:
     # make sure an index-capable input exists sometimes
     for j, cls in enumerate(self.child_classes):
       dims = [c.choice([2, 3])] if c.random() < P["p_list"] else []
+      if P.get("p_sub2d") and c.random() < P["p_sub2d"]:
+        dims = c.choice([[2, 3], [3, 2], [2, 2], [1, 3]])     # list of lists of components
       self.subs.append({"name": "m%d" % j, "cls": cls, "dims": dims})
     if c.random() < P["p_free"] * 2:
       for j in range(c.randint(1, 2)):
@@ -255,9 +259,67 @@ class CompGen:
       return [kind, e, w]
     return self.const(w)
 
+  def index_expr(self, iw, n):
+    """an index expression that is always < n == 2**iw: a whole atom of width iw, or (behavioural
+    profiles only) a slice of a wider atom / a wider atom masked with n-1"""
+    c = self.c
+    idx = [x for x in self.atoms if isinstance(x.t, int) and x.w == iw and x.path[-1][0] in ("a", "i")]
+    wide = [x for x in self.atoms if isinstance(x.t, int) and x.w > iw and x.path[-1][0] in ("a", "i")]
+    if wide and not self.P["translatable"] and (not idx or c.random() < 0.4):
+      x = c.choice(wide)
+      if c.random() < 0.5:
+        lo = c.randint(0, x.w - iw)
+        return ["rd", x.path + [["s", lo, lo + iw]], iw]
+      return ["bin", "and", ["rd", x.path, x.w], ["const", x.w, n - 1]]
+    if idx:
+      return ["rd", c.choice(idx).path, iw]
+    return None
+
+  def var_index_nonfinal(self, w, env):
+    """s.list[idx].field / s.list[idx][lo:hi] / s.list[idx][k]: a variable index that is NOT the last
+    step of the name (the index is read through a different code path of the read extraction)"""
+    c = self.c
+    lists = {}
+    for a in self.atoms:
+      if len(a.path) == 2 and a.path[0][0] == "a" and a.path[1][0] == "i":
+        lists.setdefault(a.path[0][1], []).append(a)
+    names = sorted(lists)
+    c.shuffle(names)
+    for name in names:
+      elems = lists[name]
+      n = self.list_len([["a", name]])
+      if n is None or len(elems) != n or n not in (2, 4):
+        continue
+      t = elems[0].t
+      conts = []
+      if isinstance(t, int):
+        if t > w:
+          lo = c.randint(0, t - w)
+          conts.append([["s", lo, lo + w]])
+          if w == 1:
+            conts.append([["b", lo]])
+      elif isinstance(t, str):
+        for fname, ft, flo, fw in field_layout(self.spec, t):
+          if isinstance(ft, int) and fw == w:
+            conts.append([["a", fname]])
+          elif isinstance(ft, int) and fw > w:
+            lo = c.randint(0, fw - w)
+            conts.append([["a", fname], ["s", lo, lo + w]])
+      if not conts:
+        continue
+      ie = self.index_expr(n.bit_length() - 1, n)
+      if ie is None:
+        continue
+      return ["rd", [["a", name], ["vi", ie]] + c.choice(conts), w]
+    return None
+
   def var_index_read(self, w, env):
     """s.list[idx] or s.x[idx] (bit) with an index that is always in range."""
     c = self.c
+    if not self.P["translatable"] and c.random() < 0.5:
+      e = self.var_index_nonfinal(w, env)
+      if e is not None:
+        return e
     # bit index into a power-of-two wide atom
     if w == 1:
       cands = [a for a in self.atoms if isinstance(a.t, int) and a.w in (2, 4, 8, 16, 32, 64)
@@ -280,9 +342,9 @@ class CompGen:
       if n is None or len(elems) != n or n not in (2, 4):
         continue
       iw = n.bit_length() - 1
-      idx = [x for x in self.atoms if isinstance(x.t, int) and x.w == iw and x.path[-1][0] in ("a", "i")]
-      if idx:
-        return ["rd", elems[0].path[:-1] + [["vi", ["rd", c.choice(idx).path, iw]]], w]
+      ie = self.index_expr(iw, n)
+      if ie is not None:
+        return ["rd", elems[0].path[:-1] + [["vi", ie]], w]
     return None
 
   def list_len(self, path):
@@ -563,8 +625,7 @@ class CompGen:
     child_insts = []
     for sb in self.subs:
       cd = spec["comps"][sb["cls"]]
-      bases = ([[["a", sb["name"]], ["i", i]] for i in range(sb["dims"][0])] if sb["dims"]
-               else [[["a", sb["name"]]]])
+      bases = [[["a", sb["name"]]] + [["i", i] for i in idx] for idx in itertools.product(*[range(d) for d in sb["dims"]])]
       for base in bases:
         key = repr(base)
         child_insts.append((key, base, cd))
@@ -845,7 +906,12 @@ class DesignGen:
           ft = ["arr", c.choice([1, 3, 4, 8]), c.choice([2, 3])]
         else:
           ft = c.choice(WIDTHS[:14])
-        fields.append(["f%d" % j, ft])
+        # some field names are string prefixes of a sibling's name (f1 / f1x): name-based bookkeeping
+        # in the SCC variable list and in name tables must still tell them apart
+        name = "f%d" % j
+        if j >= 1 and c.random() < 0.3:
+          name = fields[-1][0] + "x"
+        fields.append([name, ft])
       self.spec["structs"]["S%d" % i] = fields
 
   def gen(self):
